@@ -39,7 +39,7 @@ def fresh(rng, n=None, stamped=True, mode=None, materialise=None):
         if arr["t"][k] <= arr["t"][k - 1]:
             arr["t"][k] = arr["t"][k - 1] + 1e-3
     mode = mode or ("se3" if rng.random() < .5 else "xyzq")
-    tr = gen.make_evo(arr, mode, stamped)
+    tr = gen.make_evo(arr, mode, stamped, flavour=gen.rand_flavour(rng))
     if materialise if materialise is not None else (rng.random() < .5):
         tr.poses_se3, tr.positions_xyz, tr.orientations_quat_wxyz
     return tr, arr, mode
